@@ -73,24 +73,36 @@ func (f *Frame) bumpAllocFresh() {
 }
 
 // havocMods: assign fresh versions to the state variables in ms. Returns pre-state.
-func (f *Frame) havocMods(ms ModSet, keep map[string]bool) State {
+// allowed (optional): per array, the only pre-existing indices that may have changed.
+func (f *Frame) havocMods(ms ModSet, allowed map[string][]T) State {
 	pre := f.st.clone()
 	allocPre := f.alloc()
 	for _, name := range sortedModKeys(ms) {
-		if keep[name] {
-			continue
-		}
 		sort, ok := f.enc.stateSort[name]
 		if !ok {
-			continue // never read or written in this encoding so far; first read creates @0 — make it a fresh version instead
+			continue
 		}
 		old := stLookup(f.enc, pre, name)
 		nv := f.enc.declConst(f.enc.fresh(name+"@c"), sort)
 		f.st[name] = nv
-		if name == "alloc" {
+		isRefArr := strings.HasPrefix(string(sort), "(Array Int")
+		switch {
+		case name == "alloc":
 			f.enc.factAbout(nv, Le(old, nv))
-		} else if ms[name] == ModFresh && strings.HasPrefix(string(sort), "(Array Int") {
-			f.enc.addFact(nv.S, fmt.Sprintf("(assert (forall ((r!f Int)) (! (=> (<= r!f %s) (= (select %s r!f) (select %s r!f))) :pattern ((select %s r!f)))))", allocPre.S, nv.S, old.S, nv.S))
+		case ms[name] == ModFresh && isRefArr:
+			f.enc.addFact(nv.S, frameFact(nv, old, allocPre, nil))
+		case allowed != nil && isRefArr:
+			if refs, ok := allowed[name]; ok {
+				f.enc.addFact(nv.S, frameFact(nv, old, allocPre, refs))
+			}
+		}
+	}
+	for _, name := range sortedModKeys(ms) {
+		if name != "alloc" {
+			if v, ok := f.st[name]; ok {
+				f.enc.verAlloc[v.S] = f.alloc()
+				f.refWf(name, v, f.alloc())
+			}
 		}
 	}
 	return pre
@@ -146,6 +158,9 @@ func (f *Frame) callStatic(v ssa.Value, fn *ssa.Function, argVals []ssa.Value, a
 	}
 	// no contract: havoc the computed modset
 	f.enc.note("%s: call to %s without contract: results unconstrained, modset havoced", f.topName(), name)
+	if f.frameCallHook != nil {
+		f.frameCallHook(f, name, f.p.modsetOf(fn), nil, false, nil, pos)
+	}
 	f.havocMods(f.p.modsetOf(fn), nil)
 	res := f.freshResults(v, v.Name())
 	for _, r := range res {
@@ -221,6 +236,7 @@ func (f *Frame) inlineCall(fn *ssa.Function, args []T, pos token.Pos) ([]T, bool
 		sub.con = &Contract{Func: name, Checks: f.con.Checks, Loops: map[int]*LoopSpec{}}
 	}
 	sub.held = f.held
+	sub.frameHook, sub.frameMapHook, sub.frameCallHook = f.frameHook, f.frameMapHook, f.frameCallHook
 	res, st, path, ok := sub.run(args, f.st, f.curPath())
 	if !ok {
 		return nil, false
@@ -260,7 +276,33 @@ func (f *Frame) applyContract(v ssa.Value, con *Contract, fn *ssa.Function, args
 		}
 	}
 	ms := f.p.modsetOf(fn)
-	old := f.havocMods(ms, nil)
+	var allowed map[string][]T
+	var locs []assignLoc
+	if con.HasAssigns {
+		var err error
+		locs, _, err = f.p.assignLocs(con, sig)
+		if err != nil {
+			panic(trErr{name + ": " + err.Error()})
+		}
+		allowed = map[string][]T{}
+		trp := &Translator{f: f, env: env, cur: pre, old: pre}
+		for _, l := range locs {
+			if l.all {
+				continue
+			}
+			allowed[l.array] = append(allowed[l.array], l.ref(trp))
+			f.enc.stateSort[l.array] = l.sort
+		}
+		for _, l := range locs {
+			if l.all {
+				delete(allowed, l.array)
+			}
+		}
+	}
+	if f.frameCallHook != nil {
+		f.frameCallHook(f, name, ms, locs, con.HasAssigns, &Translator{f: f, env: env, cur: pre, old: pre}, pos)
+	}
+	old := f.havocMods(ms, allowed)
 	var res []T
 	if v != nil {
 		res = f.freshResults(v, v.Name())
@@ -275,9 +317,12 @@ func (f *Frame) applyContract(v ssa.Value, con *Contract, fn *ssa.Function, args
 		f.resultFacts(r)
 	}
 	f.applyGhost(con, env, old)
-	for _, e := range con.Ensures {
+	for _, e := range append(append([]*Clause{}, con.Ensures...), con.Assumes...) {
 		tr := &Translator{f: f, env: env, cur: f.st, old: old, allocOld: stLookup(f.enc, old, "alloc")}
 		f.assume(tr.boolExpr(e.Expr))
+	}
+	for _, e := range con.Assumes {
+		f.enc.assumed["assumed postcondition of "+name+": "+e.Src] = true
 	}
 	return res
 }
@@ -377,7 +422,7 @@ func (f *Frame) doInvoke(v ssa.Value, c *ssa.CallCommon, pos token.Pos) {
 			f.resultFacts(r)
 		}
 		f.applyGhost(con, env, old)
-		for _, e := range con.Ensures {
+		for _, e := range append(append([]*Clause{}, con.Ensures...), con.Assumes...) {
 			tr := &Translator{f: f, env: env, cur: f.st, old: old, allocOld: stLookup(f.enc, old, "alloc")}
 			f.assume(tr.boolExpr(e.Expr))
 		}
@@ -401,7 +446,7 @@ func (p *Program) callModsInvoke(c *ssa.CallCommon, out ModSet) {
 	out.add("alloc", ModHard)
 	key := p.ifaceMethodKey(c.Value.Type(), c.Method.Name())
 	if con, ok := p.ifaceCons[key]; ok && (con.HasAssigns || con.Pure) {
-		p.contractMods(con, out)
+		p.contractMods(con, c.Method.Type().(*types.Signature), out)
 		return
 	}
 	for _, fn := range p.implsOf(c.Value.Type(), c.Method) {
@@ -540,11 +585,11 @@ func (f *Frame) doAppend(v ssa.Value, c *ssa.CallCommon, pos token.Pos) {
 	var tl T
 	if t.Sort == SStr {
 		tl = App(SInt, "strlen", t)
-		f.enc.addFact(content.S, fmt.Sprintf("(assert (forall ((i!a Int)) (! (=> (and (<= 0 i!a) (< i!a %s)) (= (select %s (+ %s i!a)) (byteAt %s i!a))) :pattern ((select %s (+ %s i!a))))))", tl.S, content.S, SLen(s).S, t.S, content.S, SLen(s).S))
+		f.enc.addFact(content.S, fmt.Sprintf("(assert (forall ((k!a Int)) (! (=> (and (<= %[1]s k!a) (< k!a (+ %[1]s %[2]s))) (= (select %[3]s k!a) (byteAt %[4]s (- k!a %[1]s)))) :pattern ((select %[3]s k!a)))))", SLen(s).S, tl.S, content.S, t.S))
 	} else {
 		tl = SLen(t)
 		src := Select(H, SPtr(t))
-		f.enc.addFact(content.S, fmt.Sprintf("(assert (forall ((i!a Int)) (! (=> (and (<= 0 i!a) (< i!a %s)) (= (select %s (+ %s i!a)) (select %s (+ %s i!a)))) :pattern ((select %s (+ %s i!a))))))", tl.S, content.S, SLen(s).S, src.S, SOff(t).S, content.S, SLen(s).S))
+		f.enc.addFact(content.S, fmt.Sprintf("(assert (forall ((k!a Int)) (! (=> (and (<= %[1]s k!a) (< k!a (+ %[1]s %[2]s))) (= (select %[3]s k!a) (select %[4]s (+ %[5]s (- k!a %[1]s))))) :pattern ((select %[3]s k!a)))))", SLen(s).S, tl.S, content.S, src.S, SOff(t).S))
 	}
 	f.stSet(arr, Store(f.stGet(arr, as), r, content))
 	nl := Add(SLen(s), tl)
@@ -570,13 +615,13 @@ func (f *Frame) runDefers(x *ssa.RunDefers) {}
 
 func (f *Frame) frameCheck(lv *LV, addr ssa.Value, pos token.Pos) {
 	if f.frameHook != nil {
-		f.frameHook(lv, addr, pos)
+		f.frameHook(f, lv, addr, pos)
 	}
 }
 
 func (f *Frame) frameCheckMap(mv ssa.Value, m T, mt *types.Map, pos token.Pos) {
 	if f.frameMapHook != nil {
-		f.frameMapHook(mv, m, mt, pos)
+		f.frameMapHook(f, mv, m, mt, pos)
 	}
 }
 
@@ -584,6 +629,9 @@ func (f *Frame) frameCheckMap(mv ssa.Value, m T, mt *types.Map, pos token.Pos) {
 func (e *Enc) cachedApp(t T) T {
 	if e.appCache == nil {
 		e.appCache = map[string]T{}
+	}
+	if strings.Contains(t.S, "!q") {
+		return t // mentions a bound variable: cannot be named by a constant
 	}
 	if s, ok := e.appCache[t.S]; ok {
 		return s
